@@ -19,7 +19,9 @@ package c12
 
 import (
 	"context"
+	"errors"
 	"fmt"
+	"runtime"
 	"runtime/debug"
 	"sort"
 	"strings"
@@ -126,6 +128,16 @@ type xcluster struct {
 	// State, when set, answers Choose / GetDatabaseCfg instead of the mirror below (a production
 	// broker.StateManager fed with discovery events, see regression tests).
 	State broker.StateManager
+
+	// FailLeaf: storage node -> failure text: the node's task processor fails with that error instead of executing the
+	// request (the requester gets the error response the production task handler sends for a processor error)
+	FailLeaf map[string]string
+
+	// AfterPlan: the buffered leaf responses of a request are released only after the root has sent the whole plan
+	// and waits for the responses (see waitPlanSent); otherwise as soon as the last one arrived, which may be a moment
+	// earlier
+	AfterPlan bool
+	rootCtx   *waitingCtx
 
 	// Order decides in which order the buffered responses of one request are released to the
 	// receiver (nil: canonical order = sorted by sender name).
@@ -345,7 +357,15 @@ func (t *xtransport) SendRequest(target string, req *protoCommonV1.TaskRequest) 
 	sendErr := func(err error) {
 		_ = back.Send(&protoCommonV1.TaskResponse{RequestID: req.RequestID, Completed: true, ErrMsg: err.Error()})
 	}
+	c.mu.Lock()
+	failure := c.FailLeaf[target]
+	c.mu.Unlock()
 	c.reqPool.Submit(taskCtx.Ctx, concurrent.NewTask(func() {
+		if failure != "" {
+			// the node's processor fails: query.TaskHandler.process answers with an error response
+			sendErr(errors.New(failure))
+			return
+		}
 		if err := proc.Process(taskCtx, back, req); err != nil {
 			sendErr(err)
 		}
@@ -480,9 +500,60 @@ func (c *xcluster) deliver(receiver string, resp *protoCommonV1.TaskResponse, fr
 		close(barrier)
 		return
 	}
+	if c.AfterPlan {
+		c.waitPlanSent(receiver, resp.RequestID)
+	}
 	for _, n := range order {
 		c.handOver(receiver, byName[n])
 	}
+}
+
+// waitPlanSent returns when the root of the running query has sent its plan and is waiting for the responses (the
+// task sending stages and the completion callback of the root's pipeline run on the goroutine that then calls
+// waitResponse, see waitingCtx). A condition is awaited, no duration is assumed (the deadline only reports a stuck
+// harness).
+func (c *xcluster) waitPlanSent(receiver, requestID string) {
+	c.mu.Lock()
+	w := c.rootCtx
+	c.mu.Unlock()
+	if w == nil {
+		return
+	}
+	timer := time.NewTimer(c.Timeout)
+	defer timer.Stop()
+	select {
+	case <-w.waiting:
+	case <-timer.C:
+		c.mu.Lock()
+		c.Stuck = append(c.Stuck, fmt.Sprintf("the root did not start to wait for the responses of request %s within %s", requestID, c.Timeout))
+		c.mu.Unlock()
+	}
+}
+
+// waitingCtx is the context of a query; it notices when the production code asks for its Done channel from
+// MetricContext.waitResponse, i.e. when the root (pipeline executed, task completed with the pipeline's verdict) enters
+// the select in which it waits for the responses.
+type waitingCtx struct {
+	context.Context
+	once    sync.Once
+	waiting chan struct{}
+}
+
+func (w *waitingCtx) Done() <-chan struct{} {
+	var pcs [8]uintptr
+	n := runtime.Callers(2, pcs[:])
+	frames := runtime.CallersFrames(pcs[:n])
+	for {
+		f, more := frames.Next()
+		if strings.HasSuffix(f.Function, ".waitResponse") {
+			w.once.Do(func() { close(w.waiting) })
+			break
+		}
+		if !more {
+			break
+		}
+	}
+	return w.Context.Done()
 }
 
 // Query runs the statement with the given broker as root.
@@ -505,8 +576,12 @@ func (c *xcluster) Query(root, db, sqlText string) (*commonmodels.ResultSet, err
 	c.expect = map[string]int{}
 	c.sends, c.Sends, c.Stuck = map[string]*sendState{}, nil, nil
 	c.mu.Unlock()
-	ctx, cancel := context.WithTimeout(context.Background(), c.Timeout)
+	tctx, cancel := context.WithTimeout(context.Background(), c.Timeout)
 	defer cancel()
+	ctx := &waitingCtx{Context: tctx, waiting: make(chan struct{})}
+	c.mu.Lock()
+	c.rootCtx = ctx
+	c.mu.Unlock()
 	// every response of a scheduled delivery has reached its receiver (or was refused by it) before the
 	// query is over for the harness, whatever the root made of them
 	defer c.quiesce()
